@@ -211,9 +211,8 @@ Proof.
     + destruct (c_resize_ok _ _ _ _ _ _ Hoki Hnz E) as (Hok' & _ & Hc).
       apply R_keep; assumption.
   - (* OSetNum *)
-    cbn [safe_op] in Hsafe. apply N.leb_le in Hsafe.
     destruct (c_set_num (get (slots s) i) n (cn s)) as [c' k'] eqn:E.
-    destruct (c_set_num_ok _ _ _ _ _ _ Hoki Hsafe E) as [Hok' Hc].
+    destruct (c_set_num_ok _ _ _ _ _ _ Hoki E) as [Hok' Hc].
     unfold put in Hstep; cbn [fst snd] in Hstep. inv_step Hstep Hspec. split; [|reflexivity].
     apply R_put; try assumption. eapply cnt_rel_conv; [exact Hc|].
     unfold len. rewrite set_len_length. lia.
@@ -360,11 +359,6 @@ Theorem capacity_covers_contents ns ops :
 Proof. intro H. unfold run_full. eapply caps_from_sim; [apply R_init | exact H]. Qed.
 
 (* ---- the defective operations ------------------------------------------------------------------------ *)
-(* SetNumObjects(n) with n < NumObjects() drops the elements without destructing them *)
-Lemma setnum_shrink_refuted :
-  exists ops, run 1 ops <> spec_run 1 ops.
-Proof. exists [OAdd 0 1%Z; OSetNum 0 0]. vm_compute. intro H. discriminate H. Qed.
-
 (* InsertObjectAt without reallocation assigns to the raw cell behind the last element *)
 Lemma insert_in_place_refuted :
   exists ops, run 1 ops <> spec_run 1 ops.
@@ -380,10 +374,10 @@ Lemma resize_zero_refuted :
   exists ops, run 1 ops <> spec_run 1 ops.
 Proof. exists [OAdd 0 1%Z; OResize 0 0]. vm_compute. intro H. discriminate H. Qed.
 
-(* ---- histories without the three defective operations are safe ------------------------------------------ *)
+(* ---- histories without the two defective operations are safe ------------------------------------------ *)
 Definition plain_op (o : op) : bool :=
   match o with
-  | OSetNum _ _ | OInsertAt _ _ _ | OResize _ _ => false
+  | OInsertAt _ _ _ | OResize _ _ => false
   | _ => true
   end.
 
